@@ -136,6 +136,12 @@ def check(ctx, rep):
     check_deserializing(rep, core)
     check_private_channels(rep, core)
     check_core_resolve(rep, core)
+    # R02.g: a value put into a legacy future's slot reaches the asking task only if that task is woken: shared with C05 R05.c-e
+    from rules.props import c05
+    rep.rule('R02.g', 'legacy shell futures: a delivered value reaches the asking task (pending poll keeps this poll\'s waker under the '
+             'slot\'s lock; resolve delivers, takes and wakes under it)', floor=8)
+    c05.check_pending_wakers(rep, 'R02.g', core, None, only=lambda f: 'capability::shell_request::' in f.npath or 'capability::shell_stream::' in f.npath, floor=2)
+    c05.check_legacy_futures(rep, 'R02.g', 'R02.g', core)
     rep.assume('futures::channel::mpsc::unbounded and crux_core::capability::channel return two halves of one fresh FIFO channel')
     rep.assume('Request<Op> cannot be cloned and its resolve field is crate-private (rustc; pinned by witnesses W02.1-3 in the thorough tier)')
 
